@@ -25,7 +25,13 @@ type badCase struct {
 	Type string `json:"type"`
 	Text string `json:"text"` // for scalar types: the text; for structured types: the complete JSON document
 	Raw  bool   `json:"raw"`  // Text is a JSON document (not a string to be quoted)
+	// MustReject: the document differs from a valid one in exactly one way that the statement names - an impossible date, a
+	// time beyond 24:00 or with minutes above 59 in one of its fields, or (for the types whose JSON form is a string) a JSON
+	// value that is no string at all
+	MustReject string `json:"must_reject,omitempty"`
 }
+
+var stringFormed = map[string]bool{"Date": true, "DateTime": true, "HHmm": true, "ControlState": true, "Version": true, "MacAddress": true, "BindAddr": true, "BroadcastAddr": true, "ListenAddr": true, "ControllerAddr": true}
 
 var scalarTypes = []string{"Date", "DateTime", "HHmm", "SystemTime", "PIN", "ControlState", "TaskType", "CardFormat", "Version", "MacAddress", "BindAddr", "BroadcastAddr", "ListenAddr", "ControllerAddr"}
 var structuredTypes = []string{"Card", "TimeProfile", "Task", "Weekdays", "Segments", "Segment"}
@@ -109,7 +115,12 @@ func genBad(t *rapid.T) badCase {
 		c.Text = rapid.StringN(0, 12, 40).Draw(t, "text")
 	case 1: // a JSON value of another shape
 		c.Raw = true
-		c.Text = rapid.SampledFrom([]string{"null", "true", "0", "-1", "12.5", "1e400", "[]", "{}", "[\"10:30\"]", "{\"a\":1}", "\"\"", "99999999999999999999999", "\"\\u0000\"", "[1,2,3]", "\"\\ud800\""}).Draw(t, "json")
+		c.Text = rapid.SampledFrom([]string{"null", "true", "0", "-1", "12.5", "1e400", "[]", "{}", "[\"10:30\"]", "{\"a\":1}", "\"\"", "99999999999999999999999", "\"\\u0000\"", "[1,2,3]", "\"\\ud800\"", "false", "5", "20230220", "1030"}).Draw(t, "json")
+		if first := c.Text[0]; stringFormed[typ] && first != 'n' && first != '"' {
+			c.MustReject = "a JSON value that is not a string"
+		} else if typ == "PIN" && (first == 't' || first == 'f' || first == '[' || first == '{' || first == '-' || c.Text == "12.5") {
+			c.MustReject = "a JSON value that is neither a string of digits nor a non-negative integer"
+		}
 	default:
 		c.Text = mutateText(t, validText(t, typ))
 	}
@@ -173,6 +184,23 @@ func genBadStructured(t *rapid.T) badCase {
 	walk(doc, func(nv any) { root = nv })
 	l := leaves[rapid.IntRange(0, len(leaves)-1).Draw(t, "leaf")]
 	var nv any
+	mustReject := ""
+	if s, ok := l.val.(string); ok && rapid.Bool().Draw(t, "listed.reject") {
+		// the leaf is a date or a time of day: replace it by a text that the statement lists as outside the domain
+		isDate := len(s) == 10 && s[4] == '-' && s[7] == '-'
+		isTime := len(s) == 5 && s[2] == ':'
+		if isDate {
+			l.set(rapid.SampledFrom([]string{"2023-02-30", "2023-13-01", "2023-00-10", "2023-04-31", "2023-06-00", "2100-02-29", "2023-02-29"}).Draw(t, "bad.date"))
+			mustReject = "an impossible date in a date field"
+		} else if isTime {
+			l.set(rapid.SampledFrom([]string{"24:01", "23:60", "25:00", "12:99", "99:00", "24:30"}).Draw(t, "bad.time"))
+			mustReject = "a time beyond 24:00 or with minutes above 59 in a time field"
+		}
+		if mustReject != "" {
+			out, _ := json.Marshal(root)
+			return badCase{Type: typ, Raw: true, Text: string(out), MustReject: mustReject}
+		}
+	}
 	switch rapid.IntRange(0, 3).Draw(t, "replacement") {
 	case 0:
 		nv = rapid.SampledFrom([]any{nil, true, 0.0, -1.0, 1e10, 12.5, "", "x", []any{}, map[string]any{}, []any{1.0, "a"}, map[string]any{"start": 5.0}, "24:01", "2023-02-30", "99", 256.0, 1000000.0, 4294967296.0}).Draw(t, "value")
@@ -324,6 +352,14 @@ func checkBad(c badCase) *rp.Fail {
 	})
 	if p != nil {
 		return rp.Failf(site+"/panic-on-bad-text", "parsing %s text %q panicked: %v", c.Type, c.Text, p)
+	}
+	if c.MustReject != "" {
+		ev.Class("malformed/must-reject/"+c.MustReject, 1)
+		for _, a := range attempts {
+			if a.err == nil && strings.HasSuffix(a.site, "UnmarshalJSON") {
+				return rp.Failf(a.site+"/accepts-out-of-domain", "%s accepted %s (%s)", a.site, c.Text, c.MustReject)
+			}
+		}
 	}
 	// a text without a single digit or letter is no value of any of these types
 	// (the empty text is the JSON form of 'no date' / 'no value' for several types and is not judged)
